@@ -351,8 +351,8 @@ def case_load(case):
             offset = {"xyz": 0, "extxyz": 0, "gromacs": 1}.get(case["writer"])
             if offset is not None and not viols:
                 for k in range(nfr):
-                    for what in ("garbage", "plus-one"):
-                        if what == "plus-one" and k == nfr - 1:
+                    for what in ("garbage", "plus-one", "plus-many"):
+                        if what != "garbage" and k == nfr - 1:
                             continue  # an inflated LAST count is a cut-file situation (weaker clause): dropping it silently is admitted
                         li = bounds[k] + offset
                         bad = list(lines)
@@ -360,13 +360,15 @@ def case_load(case):
                             cnt = int(bad[li].split()[0])
                         except (ValueError, IndexError):
                             continue
-                        bad[li] = ("n@tom\n" if what == "garbage" else f"{cnt + 1}\n")
+                        # "plus-many": a well-formed count that exceeds the number of lines left in the file, in a frame that is
+                        # followed by complete frames (not a cut-file situation: the lines of the following frames are there)
+                        bad[li] = {"garbage": "n@tom\n", "plus-one": f"{cnt + 1}\n", "plus-many": f"{cnt + len(lines)}\n"}[what]
                         with open(path, "w") as fh:
                             fh.write("".join(bad))
                         got, err, wl = load_frames(path, fmt)
                         counters["corruptions"] += 1
                         counters["load_many_runs"] += 1
-                        tag = f"{tagb}: count line of frame {k} {'replaced by garbage' if what == 'garbage' else 'inflated by one'}"
+                        tag = f"{tagb}: count line of frame {k} { {'garbage': 'replaced by garbage', 'plus-one': 'inflated by one', 'plus-many': 'inflated beyond the end of the file'}[what]}"
                         if err is None:
                             viols.append(_v("corrupt-frame-silent-end" if len(got) <= k else "corrupt-frame-skipped-or-loaded",
                                             f"{tag}: no LoadError; {len(got)} frames yielded"))
